@@ -69,6 +69,41 @@ def native_scan(modes, extra_targets=()):
     return out
 
 
+def confirm_rounding(rep, results):
+    """Kernel-level native confirmation: run the real hour_to_time on the solver's hour/offset (and close neighbours) in mode None and in
+    the candidate's mode; report when it panics or the rounded result is not the mode's function of the unrounded one."""
+    from .. import kreplay
+    cands = [c for x in results for c in x["cands"] if c.get("inputs", {}).get("mode") and c["inputs"].get("hour") is not None]
+    if not cands:
+        return False
+    cases, metas = [], []
+    for c in cands[:40]:
+        i = c["inputs"]
+        for dh in (0.0, 1e-7, -1e-7, 0.5 / 3600):
+            for mode in ("None", i["mode"]):
+                cases.append({"api": "k_hour_to_time", "params": {"round": mode, "minutes": {i["prayer"]: float(i.get("offset_min") or 0.0)}},
+                              "prayer": i["prayer"], "hour": float(i["hour"]) + dh})
+            metas.append((i["mode"], i["prayer"]))
+    outs = kreplay.run(cases)
+    found = {}
+    for k, (mode, prayer) in enumerate(metas):
+        a, b = outs[2 * k], outs[2 * k + 1]
+        ca, cb = cases[2 * k], cases[2 * k + 1]
+        if "panic" in a or "panic" in b or "crash" in a or "crash" in b:
+            found.setdefault("hour_to_time-panic", []).append(("hour_to_time(%s, %s, hour %.9f, offset %s) panics: %s" %
+                                                             (mode, prayer, cb["hour"], cb["params"]["minutes"][prayer], b.get("panic") or a.get("panic")), [ca, cb], b))
+            continue
+        key = "Fajr" if prayer == "Imsaak" else prayer
+        e = expect(mode, key, a["secs"])
+        if b["secs"] != e:
+            found.setdefault("rounding-%s-%s" % (mode, "five" if key in FIVE else "shurooq"), []).append(
+                ("hour_to_time(%s, %s, hour %.9f, offset %s): unrounded %d s -> %d s, expected %d s" %
+                 (mode, prayer, cb["hour"], cb["params"]["minutes"][prayer], a["secs"], b["secs"], e), [ca, cb], {"none": a, "rounded": b}))
+    for key, items in found.items():
+        rep.violation(key, items[0][0] + (" (+%d more)" % (len(items) - 1) if len(items) > 1 else ""), items[0][1], items[0][2])
+    return bool(found)
+
+
 def run(rep):
     quick = rep.tier == "quick"
     rep.bounds = {"hour": "every real in [-50,75] h except 1 microsecond guard bands around whole seconds (bit-exact behaviour at "
@@ -87,6 +122,8 @@ def run(rep):
     obls.append((rounding.flag_copy, None))
     results = base.run_obligations(rep, obls)
     cands = [c for x in results for c in x["cands"]]
+    if cands and confirm_rounding(rep, results):
+        cands = []
     if cands:
         modes = sorted({c["inputs"].get("mode") for c in cands if c["inputs"].get("mode")}) or rounding.MODES
         # steer: use minute offsets to move a real instant onto the counterexample's second-of-day
@@ -119,6 +156,11 @@ def run(rep):
 
 def judge_replay(case, results):
     cs = case.get("cases", [case])
+    if len(cs) == 2 and cs[0].get("api") == "k_hour_to_time":
+        if any("panic" in r for r in results):
+            return True
+        mode, prayer = cs[1]["params"]["round"], cs[1]["prayer"]
+        return results[1]["secs"] != expect(mode, "Fajr" if prayer == "Imsaak" else prayer, results[0]["secs"])
     if len(cs) == 2 and all("times" in r for r in results):
         mode = cs[1]["params"]["round"]
         for p, tv in results[0]["times"].items():
